@@ -116,6 +116,9 @@ pub fn run(tier: Tier) -> Report {
                 }
             }
             prev = Some((n, m));
+            if fail.is_none() && n % 1009 == 0 {
+                crate::engine::validate_case(&mut rep, replay, json!({"n": n, "chunked": chunked}));
+            }
             if let Some((k, what)) = fail {
                 rep.violation(Violation {
                     key: format!("C18:{}:{}", if chunked { "chunked" } else { "sized" }, k),
